@@ -18,7 +18,9 @@ Templates == <<
 CONSTANT GenLen
 GenMenu == << [name |-> "R", modes |-> <<0>>], [name |-> "R", modes |-> <<1>>], [name |-> "BS", modes |-> <<0, 1>>] >>
 GenShapes == {f \in [1..GenLen -> 1..3] : Cardinality({i \in 1..GenLen : f[i] = 3}) >= 2}
-GenParam(i) == "g" \o ToString(i)
+\* parameter names that a symbolic-algebra library reads as something else when given as text (functions, constants, a keyword)
+GenNames == <<"beta", "gamma", "E", "S", "lambda", "zeta", "N", "I">>
+GenParam(i) == IF i <= Len(GenNames) THEN GenNames[i] ELSE "g" \o ToString(i)
 GenTemplate(f) == [i \in 1..GenLen |-> O(GenMenu[f[i]].name, GenMenu[f[i]].modes, <<A(GenParam(i), i, 2, i - 3, 4)>>)]
 TemplateIds == {[k |-> "hand", n |-> n, f |-> <<>>] : n \in 1..Len(Templates)} \cup {[k |-> "gen", n |-> 0, f |-> f] : f \in GenShapes}
 TemplateOf(id) == IF id.k = "hand" THEN Templates[id.n] ELSE GenTemplate(id.f)
